@@ -188,9 +188,40 @@ func run(t *testing.T, s world.Scenario, stopFirst bool) (v *verdict, nontrivial
 				stashedAt[e.Actor] = append(stashedAt[e.Actor], e.ID)
 			}
 		}
+		spawnedTimes, deadIDs := map[string]int{}, map[int]bool{}
+		for _, o := range obs {
+			if o.Type == "Spawned" {
+				spawnedTimes[o.Actor]++
+			}
+			if o.Type == "DeadLetter" && o.MsgID != 0 {
+				deadIDs[o.MsgID] = true
+			}
+		}
 		for _, a := range w.Sys.VerifActors() {
 			ids := stashedAt[a.Path]
-			if len(ids) == 0 || disturbed[a.Path] || a.State != 0 || a.Zombie {
+			if len(ids) == 0 || a.State != 0 || a.Zombie {
+				continue
+			}
+			if disturbed[a.Path] {
+				// restarted, but one and the same actor (spawned once, running at the end): its stash belongs to the
+				// actor, not to the instance. What it stashed and never got back is still there or was published
+				// as a dead letter
+				if spawnedTimes[a.Path] != 1 {
+					continue
+				}
+				need := 0
+				counted := map[int]bool{} // a message can be stashed once per instance: the same id may be listed twice
+				for _, id := range ids {
+					if !deadIDs[id] && !counted[id] {
+						need++
+					}
+					counted[id] = true
+				}
+				lab["stash-length-checked|restarted"] = true
+				if a.Stash < need {
+					v = &verdict{"C03/lost|stash-dropped|restarted", fmt.Sprintf("actor %s (spawned once, restarted, running at the end) stashed messages %v and never got them back; %d of them were not dead-lettered, but its stash holds %d. trace: %s", a.Path, ids, need, a.Stash, world.Fmt(tailEv(world.PerActor(tr)[a.Path], 14)))}
+					return
+				}
 				continue
 			}
 			lab["stash-length-checked"] = true
